@@ -277,6 +277,103 @@ func c15Case(op c15Op, outcomes [][]h.Ev, async bool, bound int) fw.Case {
 	}}
 }
 
+// c15Nested: a re-subscribing operator over another one. The outer operator subscribes the inner pipeline
+// value several times; each of those subscriptions must behave like a subscription to a freshly built inner
+// pipeline. Variant A reuses one inner value, variant B rebuilds it (Defer) for every outer attempt; both
+// run over the same attempt outcomes and must agree on trace and on the number of source subscriptions.
+type c15Inner struct {
+	name string
+	mk   func(s ro.Observable[int]) ro.Observable[int]
+}
+
+func c15Inners() []c15Inner {
+	return []c15Inner{
+		{"Concat(src,src)", func(s ro.Observable[int]) ro.Observable[int] { return ro.Concat(s, s) }},
+		{"ConcatWith(src)", func(s ro.Observable[int]) ro.Observable[int] { return ro.ConcatWith(s)(s) }},
+		{"Catch(->src)", func(s ro.Observable[int]) ro.Observable[int] {
+			return ro.Catch(func(error) ro.Observable[int] { return s })(s)
+		}},
+		{"OnErrorResumeNextWith(src)", func(s ro.Observable[int]) ro.Observable[int] { return ro.OnErrorResumeNextWith(s)(s) }},
+		{"RetryWithConfig(max=1)", func(s ro.Observable[int]) ro.Observable[int] {
+			return ro.RetryWithConfig[int](ro.RetryConfig{MaxRetries: 1})(s)
+		}},
+		{"RepeatWith(2)", func(s ro.Observable[int]) ro.Observable[int] { return ro.RepeatWith[int](2)(s) }},
+		{"DoWhileI(i<1)", func(s ro.Observable[int]) ro.Observable[int] {
+			return ro.DoWhileI[int](func(i int64) bool { return i < 1 })(s)
+		}},
+		{"WhileI(i<2)", func(s ro.Observable[int]) ro.Observable[int] {
+			return ro.WhileI[int](func(i int64) bool { return i < 2 })(s)
+		}},
+	}
+}
+
+func c15Nested(outerName string, outer func(ro.Observable[int]) ro.Observable[int], in c15Inner, outcomes [][]h.Ev) fw.Case {
+	var names []string
+	for _, o := range outcomes {
+		names = append(names, "["+h.Word(o)+"]")
+	}
+	nm := strings.Join(names, "")
+	return fw.Case{Name: nm, Opts: vrt.Options{Horizon: 60000, MaxTime: int64(100 * u)}, Make: func() fw.Instance {
+		recA, recB := h.NewRec("reused"), h.NewRec("rebuilt")
+		srcA, srcB := h.NewSrc("attempts"), h.NewSrc("attempts")
+		body := func() {
+			// each variant on a thread of its own: one of them may wait for ever inside Subscribe
+			vrt.GoNamed("reused", func() {
+				a := h.Attempts[int](srcA, h.Unsafe, outcomes, false)
+				sub(outer(in.mk(a)), recA)
+			})
+			vrt.Settle()
+			vrt.GoNamed("rebuilt", func() {
+				b := h.Attempts[int](srcB, h.Unsafe, outcomes, false)
+				sub(outer(ro.Defer(func() ro.Observable[int] { return in.mk(b) })), recB)
+			})
+		}
+		return fw.Instance{Body: body, Outcome: recA.Trace, Check: func(r *vrt.Result) []fw.Violation {
+			var out []fw.Violation
+			sig := "nested/" + outerName + " over " + in.name
+			where := fmt.Sprintf("%s over %s over attempts %s", outerName, in.name, nm)
+			blockedA, blockedB := false, false
+			for _, b := range r.Blocked {
+				if b.Name == "reused" {
+					blockedA = true
+				}
+				if b.Name == "rebuilt" {
+					blockedB = true
+				}
+			}
+			if r.HorizonHit || (blockedA && blockedB) {
+				return nil // does not finish in either variant: reported for the single operators
+			}
+			if blockedA != blockedB {
+				which := "reused"
+				if blockedB {
+					which = "rebuilt"
+				}
+				return []fw.Violation{fw.V(sig+"/does-not-finish-in-one-variant/"+which, fmt.Sprintf("%s: Subscribe never returns when the inner pipeline is %s (trace [%s]) but does when it is not (reused [%s], rebuilt [%s])", where, which, map[bool]string{true: recA.Trace(), false: recB.Trace()}[blockedA], recA.Trace(), recB.Trace()))}
+			}
+			sa, ta, la, _ := srcA.Get()
+			sb, _, _, _ := srcB.Get()
+			if !h.SameTrace(recA.Events(), recB.Events()) {
+				out = append(out, fw.V(sig+"/inner-pipeline-remembers-previous-attempt/"+diffClass(recA.Events(), recB.Events()),
+					fmt.Sprintf("%s: delivered [%s] (%d source subscriptions); with the inner pipeline rebuilt for every outer attempt: [%s] (%d)", where, recA.Trace(), sa, recB.Trace(), sb)))
+			} else if sa != sb {
+				cls := "too-many"
+				if sa < sb {
+					cls = "too-few"
+				}
+				out = append(out, fw.V(sig+"/attempt-count/"+cls, fmt.Sprintf("%s: the source was subscribed %d times; with the inner pipeline rebuilt for every outer attempt %d times", where, sa, sb)))
+			}
+			if srcA.MaxOpen > 1 {
+				out = append(out, fw.V(sig+"/attempts-overlap/open", fmt.Sprintf("%s: %d attempts were open at the same time", where, srcA.MaxOpen)))
+			}
+			if ta != sa || la != 0 {
+				out = append(out, fw.V(sig+"/attempt-not-released/teardown", fmt.Sprintf("%s: subscribed %d, released %d", where, sa, ta)))
+			}
+			return out
+		}}
+	}}
+}
+
 // c15Cancel: Retry stops as soon as the subscription context is cancelled (cancel inside the k-th attempt).
 func c15Cancel(delay bool, k int) fw.Case {
 	return fw.Case{Name: fmt.Sprintf("cancel-in-attempt-%d/delay=%v", k, delay), Opts: vrt.Options{Horizon: 60000, MaxTime: int64(100 * u)}, Make: func() fw.Instance {
@@ -361,6 +458,23 @@ func init() {
 					}
 				}
 			}})
+		}
+		outers := []struct {
+			name string
+			op   func(ro.Observable[int]) ro.Observable[int]
+		}{
+			{"RetryWithConfig(max=2)", ro.RetryWithConfig[int](ro.RetryConfig{MaxRetries: 2})},
+			{"RepeatWith(2)", ro.RepeatWith[int](2)},
+		}
+		for _, ou := range outers {
+			for _, in := range c15Inners() {
+				ou, in := ou, in
+				scns = append(scns, fw.Scenario{ID: "C15/nested/" + ou.name + " over " + in.name, Group: "nested", Run: func(c *fw.Ctx) {
+					for _, s := range seqs {
+						c.Explore(c15Nested(ou.name, ou.op, in, s))
+					}
+				}})
+			}
 		}
 		scns = append(scns, fw.Scenario{ID: "C15/cancel", Group: "Retry", Run: func(c *fw.Ctx) {
 			for _, d := range []bool{false, true} {
